@@ -12,8 +12,8 @@ ASSUMPTIONS = [
 
 
 def bounds(tier):
-    return dict(history_length=4 if tier == "thorough" else 3, alphabet=["call(J_a)", "call(J_b)", "reset()"], update_weights_every=[1, 2, 3, 4] if tier == "thorough" else [1, 2, 3],
-                m=2, optim_niter=[1, 2] if tier == "thorough" else [1], max_norm=["symbolic > 0", "0 (disabled)"])
+    return dict(history_length="3 (thorough: 4 with one reset)", alphabet=["call(J_a)", "call(J_b)", "reset()"], update_weights_every=[1, 2, 3, 4] if tier == "thorough" else [1, 2, 3],
+                m=2, optim_niter="1 (thorough: 2 for histories of length <= 2)", max_norm=["symbolic > 0", "0 (disabled)"], dtype=["float32", "float64"])
 
 
 def words(n):
@@ -27,14 +27,26 @@ def words(n):
 
 
 def cases(tier):
-    n = 4 if tier == "thorough" else 3
     cs = []
-    for k in ([1, 2, 3, 4] if tier == "thorough" else [1, 2, 3]):
-        for w in words(n):
-            if k == 1 and len(w.replace("r", "")) > 2 and tier != "thorough":
-                continue  # three recomputations in a row take minutes (measured); thorough tier only
-            for niter in ([1, 2] if tier == "thorough" else [1]):
-                cs.append(dict(name=f"k{k}_{w}_it{niter}", fn="history", args=dict(k=k, word=w, niter=niter), weight=len(w) * niter))
+    def add(k, w, niter):
+        cs.append(dict(name=f"k{k}_{w}_it{niter}", fn="history", args=dict(k=k, word=w, niter=niter), weight=len(w) * niter, **({"budget_s": 900} if tier == "thorough" else {})))
+    for k in (1, 2, 3):
+        for w in words(3):
+            if k == 1 and len(w.replace("r", "")) > 2:
+                continue  # three recomputations in a row take minutes (measured): thorough tier only
+            add(k, w, 1)
+    if tier == "thorough":
+        for w in words(3):
+            add(4, w, 1)                                   # update_weights_every = 4
+            if len(w.replace("r", "")) > 2:
+                add(1, w, 1)                               # three recomputations in a row
+        for k in (2, 3):
+            for w in words(4):
+                if len(w) == 4 and w.count("r") == 1:
+                    add(k, w, 1)                           # histories of length 4 with one reset
+        for k in (1, 2):
+            for w in words(2):
+                add(k, w, 2)                               # two inner iterations of the solver loop
     return cs
 
 
